@@ -57,10 +57,13 @@ def render(G, broken, rng=None):
         for t in imps:
             sp = (t + ".oal") if rng is None else spellings(m, t, rng, layout)
             lines.append('use "%s";' % sp)
-        if m in broken:
-            lines.append("let = ;")
+        decl = "let = ;" if m in broken else "let d_%s = num;" % m
+        if rng is not None and m not in broken and rng.random() < 0.35:
+            # the grammar allows use statements among the other statements: some or all of them after the declaration
+            k = rng.randrange(len(lines) + 1)
+            lines = lines[:k] + [decl] + lines[k:]
         else:
-            lines.append("let d_%s = num;" % m)
+            lines.append(decl)
         files[url(m, layout)] = "\n".join(lines) + "\n"
     return {"main": url("m1"), "files": files, "real_compile": True}
 
